@@ -178,6 +178,11 @@ func runC37(c *Ctx) {
 				fmt.Sprintf("Covers(receiver %v, argument %v)", ca, as))
 		}
 		v.RequireStore("G5-create-chain", 1, "local:subject", "arg0.Subject")
+		// the subject is marshalled from ExtraNames: exactly the CSR's attribute list, in its
+		// order (findIA reads the FIRST ISD-AS attribute; dropping or re-ordering attributes
+		// changes which AS the issued certificate names)
+		v.RequireStore("G5-create-chain", 1, "local:subject.ExtraNames", "local:subject.Names", "arg0.Subject.Names")
+		v.RequireStore("G5-create-chain", 1, "local:complit.Subject", "local:subject")
 		v.RequireCallArgs("G5-create-chain", 1, "crypto/x509.CreateCertificate", "", "", "recv.Certificate",
 			"arg0.PublicKey", "recv.Signer")
 		v.RequireCallArgs("G5-create-chain", 1, "pkg/scrypto/cppki.SubjectKeyID", "arg0.PublicKey")
